@@ -35,6 +35,7 @@ class CCodeGenerator:
         self.labeled_blocks = {}
         self.switch_options = None
         self.static_counter = 0  # Unique number to make static vars unique
+        self._zero_block = None  # Block of zero bytes to clear aggregates
         int_types = {2: ir.i16, 4: ir.i32, 8: ir.i64}
         uint_types = {2: ir.u16, 4: ir.u32, 8: ir.u64}
         int_size = self.context.arch_info.get_size("int")
@@ -71,6 +72,7 @@ class CCodeGenerator:
         """Initial entry point for the code generator"""
         self.builder = irutils.Builder()
         self.ir_var_map = {}
+        self._zero_block = None
         self.logger.debug("Generating IR-code")
         self.debug_db = debuginfo.DebugDb()
         ir_mod = ir.Module("main", debug_db=self.debug_db)
@@ -858,7 +860,71 @@ class CCodeGenerator:
         self.ir_var_map[variable] = ir_addr
         if variable.initial_value:
             # Initialize local variable by a sequence of assignments.
+            self.gen_local_zero_fill(
+                ir_addr, variable.typ, variable.initial_value
+            )
             self.gen_local_init(ir_addr, variable.typ, variable.initial_value)
+
+    def gen_local_zero_fill(self, ptr, typ, expr):
+        """Clear an aggregate which is initialized by an incomplete list.
+
+        Elements and members without an initializer in a brace enclosed
+        list are initialized to zero (C11 6.7.9 p21). The explicit
+        initializers are stored afterwards.
+        """
+        if self._is_complete_initializer(typ, expr):
+            return
+
+        size, alignment = self.data_layout(typ)
+
+        # Small objects are cleared by a couple of stores:
+        int_size = self.context.arch_info.get_size("int")
+        unit = max(u for u in (1, 2, 4, 8) if u <= min(alignment, int_size))
+        if size % unit == 0 and size // unit <= 16:
+            unit_typ = {1: ir.u8, 2: ir.u16, 4: ir.u32, 8: ir.u64}[unit]
+            zero = self.builder.emit_const(0, unit_typ)
+            for offset in range(0, size, unit):
+                if offset:
+                    address = self.builder.emit_add(ptr, offset, ir.ptr)
+                else:
+                    address = ptr
+                self.emit(ir.Store(zero, address))
+            return
+
+        # Large ones are copied from a block of zero bytes, which is shared
+        # by all initializations in this module:
+        if self._zero_block is None:
+            self._zero_block = ir.Variable(
+                "__zeros", ir.Binding.LOCAL, size, 8, value=bytes(size)
+            )
+            self.builder.module.add_variable(self._zero_block)
+        elif self._zero_block.amount < size:
+            self._zero_block.amount = size
+            self._zero_block.value = (bytes(size),)
+        self.gen_copy_struct(ptr, self._zero_block, size)
+
+    def _is_complete_initializer(self, typ, expr):
+        """Test if all elements of typ have an explicit initializer."""
+        if isinstance(expr, expressions.ArrayInitializer):
+            if isinstance(typ.size, int):
+                array_size = typ.size
+            else:
+                array_size = self.context.eval_expr(typ.size)
+            return len(expr.values) >= array_size and all(
+                value is not None
+                and self._is_complete_initializer(typ.element_type, value)
+                for value in expr.values
+            )
+        elif isinstance(expr, expressions.StructInitializer):
+            return all(
+                field in expr.values
+                and self._is_complete_initializer(
+                    field.typ, expr.values[field]
+                )
+                for field in typ.fields
+            )
+        else:
+            return True
 
     def gen_local_init(self, ptr, typ, expr):
         """Initialize a local slab of memory with an initial value"""
@@ -1513,6 +1579,7 @@ class CCodeGenerator:
         # Alloc some room:
         ir_addr = self.emit_alloca(expr.typ)
         # ... and fill compound literal:
+        self.gen_local_zero_fill(ir_addr, expr.typ, expr.init)
         self.gen_local_init(ir_addr, expr.typ, expr.init)
         return ir_addr
 
